@@ -7,6 +7,7 @@ The randomness seam (clastic.middleware.stats.random) returns the planned draws;
 the clock seams (time, datetime) read the simulated clock.
 """
 import json
+import os
 
 import clastic.middleware.stats as cstats
 from clastic import Application, Response, Route, redirect
@@ -182,6 +183,9 @@ class DrawProxy(object):
         return getattr(d, k)
 
 
+CONC_WATCH = (os.path.join(os.path.abspath(os.environ.get('VERIF_REPO', '/repo')), 'clastic') + os.sep, '<sinter')
+
+
 class C19(Check):
     id = 'C19'
     world = 'stats'
@@ -204,7 +208,7 @@ class C19(Check):
     level_text = ('Seeded search over request/read/reset/resize histories against a model counter and over '
                   'reservoir operation histories under adversarial random draws; unbounded history space, sampled.')
     level_note = 'Trusted: the sequential dispatch model used to predict which routes a request reaches.'
-    required_probes = ('query-string-of-raw-bytes', 'iteration-in-progress-across-a-resize', 'reader-changed-its-copy', 'one-application-mounted-under-two-prefixes', 'reservoir-with-repeated-values-shrunk', 'two-stats-applications', 'request-inside-except-block', 'reservoir-overflow', 'reservoir-grow-after-overflow', 'fallthrough-counted', 'reset-read',
+    required_probes = ('overlapping-requests-counted', 'query-string-of-raw-bytes', 'iteration-in-progress-across-a-resize', 'reader-changed-its-copy', 'one-application-mounted-under-two-prefixes', 'reservoir-with-repeated-values-shrunk', 'two-stats-applications', 'request-inside-except-block', 'reservoir-overflow', 'reservoir-grow-after-overflow', 'fallthrough-counted', 'reset-read',
                        'negative-duration', 'null-route-405')
 
     # ---- generation --------------------------------------------------------
@@ -240,6 +244,18 @@ class C19(Check):
                 if erng.random() < 0.2:
                     op['jitter'] = [erng.choice([0.0, 0.001, 1.5, -0.5, -30.0, 3600.0]) for _ in range(erng.randint(1, 6))]
                 ops.append(op)
+            elif r < 0.7:
+                # two or three clients at once (a threaded server): every one of them is counted.  The same requests are
+                # served one by one first: the counters they go to exist by then (what the first hit of a counter does when
+                # another first hit overlaps is not part of this check), pre-emption at line boundaries only
+                sch = S['sched']
+                n = sch.choice([2, 2, 3])
+                names = ['T%d' % i for i in range(n)]
+                order = list(names)
+                sch.shuffle(order)
+                ops.append({'op': 'conc', 'app': (1 if second and rng.random() < 0.4 else 0), 'order': order,
+                            'reqs': [{'path': rng.choice(PATHS), 'method': rng.choice(['GET', 'GET', 'POST']), 'o': rng.choice(sorted(OUTCOMES))} for _ in range(n)],
+                            'preempts': sorted([sch.randint(1, 400), sch.choice(['demote'] + names)] for _ in range(sch.randint(1, 8)))})
             elif r < 0.82:
                 ops.append({'op': 'read', 'app': (1 if second and rng.random() < 0.4 else 0)})
             elif r < 0.9:
@@ -492,6 +508,31 @@ class C19(Check):
                     if ex.escaped is not None:
                         res.violate('C19/request-escaped:%s' % type(ex.escaped).__name__,
                                     'step %d: %r escaped' % (step, ex.escaped), step)
+                elif kind == 'conc':
+                    from sim.core.sched import BatonScheduler
+                    envs = []
+                    for rq in op['reqs']:
+                        call_app(app, make_environ(rq['method'].upper(), rq['path'] + '?o=' + rq['o']))       # one by one first
+                        for p, k in simulate(table, rq['path'], rq['method'], rq['o']):
+                            bump(ai, p, k)
+                        envs.append(make_environ(rq['method'].upper(), rq['path'] + '?o=' + rq['o']))
+                    got_c = {}
+                    tasks = dict(('T%d' % i, (lambda i=i: got_c.__setitem__(i, call_app(app, envs[i])))) for i in range(len(envs)))
+                    t0 = clock.now
+                    sched = BatonScheduler(op['order'], op['preempts'], 'line', CONC_WATCH)
+                    sched.run(tasks)
+                    clock.now = t0
+                    res.fire('preempt', len(sched.switches))
+                    if sched.switches:
+                        res.probe('overlapping-requests-counted')
+                        res.nontrivial = True
+                    res.ev(step, 'conc', len(envs), 'switches', len(sched.switches))
+                    if sched.errors:
+                        res.violate('C19/conc/thread-raised:%s' % type(list(sched.errors.values())[0]).__name__, 'step %d: %r' % (step, sched.errors), step)
+                        break
+                    for rq in op['reqs']:
+                        for p, k in simulate(table, rq['path'], rq['method'], rq['o']):
+                            bump(ai, p, k)
                 elif kind in ('read', 'reset'):
                     if kind == 'read':
                         ex = call_app(app, make_environ('GET', '/_st/?format=json'))
